@@ -147,7 +147,7 @@ def eval_one(args):
                 elif r.status != "proved":
                     undec.append(n)
         m["verus_failed"], m["verus_undecided"] = failed, undec
-        res = native.run_groups(run, ["arith", "pointer_text", "name_lookup", "descendant", "selectors", "regex", "cmp_struct", "e2e_cmp", "e2e_fn", "e2e_filter", "text_arith", "text_filter", "custom", "e2e"])
+        res = native.run_groups(run, ["arith", "pointer_text", "name_lookup", "descendant", "selectors", "regex", "cmp_struct", "e2e_cmp", "e2e_fn", "e2e_filter", "text_arith", "text_filter", "text_plain", "text_union", "text_cmp", "custom", "e2e"])
         nf = []
         if res:
             from vx import findings
